@@ -57,10 +57,16 @@ pub fn dead_code_elimination(function: &il::Function) -> Result<il::Function, Er
                         function,
                         il::RefFunctionLocation::Instruction(block, instruction),
                     );
-                    if let Some(reaching) = rd.get(&rpl.into()) {
-                        reaching.locations().iter().for_each(|location| {
-                            live.insert(location.function_location().clone());
-                        });
+                    // everything which reaches the operation *before* it executes
+                    // is observed by it
+                    let rpl: il::ProgramLocation = rpl.into();
+                    if rd.contains_key(&rpl) {
+                        reaching_definitions::reaching_definitions_in(function, &rd, &rpl)?
+                            .locations()
+                            .iter()
+                            .for_each(|location| {
+                                live.insert(location.function_location().clone());
+                            });
                     }
                 }
                 _ => {}
